@@ -42,3 +42,32 @@ pub fn d_dump_units() {
 }
 #[cfg(kani)]
 pub fn d_dump_units() {}
+
+/// unit arithmetic natively: (op [Add,Div,Mul,Sub], x, y) over a fixed list of unit pairs of one kind; oracle: the
+/// right operand converted by the real DynamicTypeItem::convert into the left unit, then the plain operation
+#[cfg(not(kani))]
+pub fn m_replay_unit_calc() {
+    use crate::compiler::OperationType;
+    let k: u8 = vany(); let x: f64 = vany(); let y: f64 = vany();
+    vassume(k < 4);
+    let mut calc = crate::SmartCalc::default();
+    calc.set_decimal_seperator(".".to_string());
+    calc.set_thousand_separator(",".to_string());
+    let cfg = crate::smartcalc::verif_k_local::config_of(&calc);
+    let unit = |name: &str| -> Rc<crate::config::DynamicType> {
+        for (_, g) in cfg.types.iter() { for (_, t) in g.iter() { if t.names.iter().any(|n| n == name) { return t.clone(); } } }
+        panic!("unit {}", name)
+    };
+    let pairs = [("cm", "ft"), ("ft", "cm"), ("inch", "mm"), ("mm", "inch"), ("m", "km"), ("kg", "lb"), ("oz", "mg"), ("mb", "kb"), ("yard", "dm")];
+    let op = match k { 0 => OperationType::Add, 1 => OperationType::Div, 2 => OperationType::Mul, _ => OperationType::Sub };
+    for (l, r) in pairs.iter() {
+        let (lu, ru) = (unit(l), unit(r));
+        let conv = match DynamicTypeItem::convert(cfg, y, ru.clone(), lu.names[0].clone()) { Some((v, _)) => v, None => continue };
+        let got = DynamicTypeItem(x, lu.clone()).calculate(cfg, true, &DynamicTypeItem(y, ru.clone()), op).expect("computed");
+        let want = match k { 0 => x + conv, 1 => if conv == 0.0 { 0.0 } else { x / conv }, 2 => x * conv, _ => x - conv };
+        if k == 1 { assert!(got.type_name() == "NUMBER"); } else { assert!(got.as_any().downcast_ref::<DynamicTypeItem>().expect("quantity").get_type().names[0] == lu.names[0]); }
+        if k != 2 { assert!((got.get_underlying_number() - want).abs() <= 1e-9 * (x.abs() + conv.abs() + want.abs()) || got.get_underlying_number() == want); }
+    }
+}
+#[cfg(kani)]
+pub fn m_replay_unit_calc() {}
